@@ -120,6 +120,23 @@ fn check_unique_ids(dbs: &Arc<Databases>, when: &str, viols: &mut Vec<Violation>
             break;
         }
     }
+    // the table the oplog reader decodes database ids with must name, for every database, that very database
+    {
+        let idm = dbs.id_name_db_map.read().unwrap();
+        for (name, db) in map.iter() {
+            match idm.get(&(db.metadata.id as u64)) {
+                Some(n) if n == name => {}
+                other => {
+                    viols.push(Violation::new(
+                        "id-table-disagrees",
+                        when.to_string(),
+                        format!("{}: database {:?} has id {}, the id table maps that id to {:?}: its oplog records decode to that", when, name, db.metadata.id, other),
+                    ));
+                    break;
+                }
+            }
+        }
+    }
     drop(map);
     let km = dbs.keys_map.read().unwrap();
     let mut by_id: BTreeMap<u64, Vec<String>> = BTreeMap::new();
